@@ -86,6 +86,8 @@ class AttributeCollection(MutableMapping[int, Attribute]):
     cached: ClassVar[AttributeCollection | None] = None
     # previously parsed attribute, from which cached was made of
     previous: ClassVar[Buffer] = b''
+    # negotiated parameters the cached decode depended on (asn4, aigp)
+    previous_context: ClassVar[tuple[bool, bool]] = (False, False)
 
     representation: ClassVar[dict[int, tuple[str, str, str | tuple[str, ...], str, str]]] = {
         # key:  (how, default, name, text_presentation, json_presentation),
@@ -355,7 +357,10 @@ class AttributeCollection(MutableMapping[int, Attribute]):
 
     @classmethod
     def unpack(cls, data: Buffer, negotiated: Negotiated) -> AttributeCollection:
-        if cls.cached and data == cls.previous:
+        # what the decode depends on besides the bytes: AS_PATH and AGGREGATOR read asn4, AIGP reads aigp.
+        # Two sessions negotiated differently must not be served each other's decode
+        context = (negotiated.asn4, negotiated.aigp)
+        if cls.cached and data == cls.previous and context == cls.previous_context:
             return cls.cached
 
         attributes = cls().parse(data, negotiated)
@@ -368,6 +373,7 @@ class AttributeCollection(MutableMapping[int, Attribute]):
 
         if Attribute.CODE.MP_REACH_NLRI not in attributes and Attribute.CODE.MP_UNREACH_NLRI not in attributes:
             cls.previous = data
+            cls.previous_context = context
             cls.cached = attributes
         else:
             cls.previous = b''
